@@ -34,7 +34,7 @@ use crate::report::{Acc, Check, Tier};
 use crate::util::{self, guard, Guard};
 use crate::world;
 
-pub const SWEEPS: [&str; 5] = ["short-bytes", "fixture-corruption", "json-node-mutation", "adversarial-rules", "adversarial-verify"];
+pub const SWEEPS: [&str; 6] = ["short-bytes", "fixture-corruption", "json-node-mutation", "adversarial-rules", "adversarial-verify", "adversarial-entries"];
 
 // --------------------------------------------------------------- decoders
 
@@ -556,7 +556,13 @@ fn hostile_link_files() -> Vec<(String, String)> {
         let mut d = gv.clone();
         d["signed"]["materials"] = json!({p: {"sha256": "00"}, "./a": {"sha256": "11"}});
         d["signed"]["products"] = json!({p: {"sha256": "22"}, "./a": {"sha256": "33"}, "a": {"sha256": "44"}});
-        v.push((format!("paths {p:?} signed"), world::block_text(&world::sign(serde_json::from_str(&d["signed"].to_string()).unwrap(), &[a]))));
+        // (a library that refuses such a path when parsing or signing is within its rights: then
+        // only the unsigned text remains)
+        if let Ok(meta) = serde_json::from_str::<in_toto::models::MetadataWrapper>(&d["signed"].to_string()) {
+            if let Guard::Done(mb) = guard(|| world::sign(meta, &[a])) {
+                v.push((format!("paths {p:?} signed"), world::block_text(&mb)));
+            }
+        }
         v.push((format!("paths {p:?} unsigned"), d.to_string()));
     }
     // extreme values
@@ -570,12 +576,15 @@ fn hostile_link_files() -> Vec<(String, String)> {
     d["signed"]["materials"] = json!({"a": {"sha256": ""}});
     v.push(("empty digest".into(), d.to_string()));
     // a layout where a link is expected (delegation) with hostile content
-    let inner = world::layout(vec![world::step("in/../x", u32::MAX, &[])], vec![], &[], world::far_future());
-    v.push(("sublayout hostile step name".into(), world::block_text(&world::sign_layout(inner, &[a]))));
-    let inner = world::layout(vec![world::step("[", 0, &[a]), world::step("*", 0, &[a]), world::step("", 1, &[a])], vec![], &[a], world::far_future());
-    v.push(("sublayout glob step names".into(), world::block_text(&world::sign_layout(inner, &[a]))));
-    let inner = world::layout(vec![], vec![], &[], world::now() - chrono::Duration::days(1));
-    v.push(("sublayout expired".into(), world::block_text(&world::sign_layout(inner, &[a]))));
+    let mut sub = |name: &str, mk: &dyn Fn() -> LayoutMetadata| {
+        // built under guard: a library that refuses such a layout at construction leaves the case out
+        if let Guard::Done(text) = guard(|| world::block_text(&world::sign_layout(mk(), &[a]))) {
+            v.push((name.to_string(), text));
+        }
+    };
+    sub("sublayout hostile step name", &|| world::layout(vec![world::step("in/../x", u32::MAX, &[])], vec![], &[], world::far_future()));
+    sub("sublayout glob step names", &|| world::layout(vec![world::step("[", 0, &[a]), world::step("*", 0, &[a]), world::step("", 1, &[a])], vec![], &[a], world::far_future()));
+    sub("sublayout expired", &|| world::layout(vec![], vec![], &[], world::now() - chrono::Duration::days(1)));
     v
 }
 
@@ -588,7 +597,9 @@ fn hostile_layouts() -> Vec<(String, LayoutMetadata)> {
                 .add_expected_material(ArtifactRule::Match { pattern: "*".into(), in_src: Some("./".into()), with: Artifact::Products, in_dst: None, from: name.into() })
                 .add_expected_product(ArtifactRule::Modify("./a".into()))
                 .add_expected_product(ArtifactRule::Disallow("[".into()));
-            v.push((format!("step {name:?} threshold {thr}"), world::layout(vec![st], vec![], &[a], world::far_future())));
+            if let Guard::Done(l) = guard(|| world::layout(vec![st.clone()], vec![], &[a], world::far_future())) {
+                v.push((format!("step {name:?} threshold {thr}"), l));
+            }
         }
     }
     // a step that lists key ids the key table does not define (a dangling id, and the id
@@ -615,7 +626,7 @@ fn sweep_adversarial_verify(cx: &mut Ctx, dir: &Path) {
     std::env::set_current_dir(&cwd).unwrap();
     let linkdir = dir.join("links");
     for (ldesc, lay) in &layouts {
-        let block = world::sign_layout(lay.clone(), &[owner]);
+        let Guard::Done(block) = guard(|| world::sign_layout(lay.clone(), &[owner])) else { continue };
         let step_name = lay.steps.first().map(|s| s.name.clone()).unwrap_or("s".into());
         for (fdesc, content) in &files {
             let (ld, fd, bl, sn, ct) = (ldesc.clone(), fdesc.clone(), &block, step_name.clone(), content);
@@ -660,6 +671,147 @@ fn sweep_adversarial_verify(cx: &mut Ctx, dir: &Path) {
     let _ = std::env::set_current_dir("/");
 }
 
+/// Link-directory entries that are not regular UTF-8 files, and delegation trees that are deep,
+/// self-similar or hostile below the first level. The layouts are plain and validly signed; every
+/// signature that is needed for the recursion to proceed is genuine (the same signed documents are
+/// simply placed again), so this is what anyone with write access to the directory can arrange.
+fn sweep_adversarial_entries(cx: &mut Ctx, dir: &Path) {
+    let owner = keys::get("ed6");
+    let a = keys::get("ed1");
+    let cwd = dir.join("cwd");
+    std::fs::create_dir_all(&cwd).unwrap();
+    std::env::set_current_dir(&cwd).unwrap();
+    let linkdir = dir.join("links2");
+    let outer = world::sign_layout(world::layout(vec![world::step("s", 1, &[a])], vec![], &[a], world::far_future()), &[owner]);
+    let good = world::block_text(&world::sign_link(world::link("s", world::arts(&[("m", 1)]), world::arts(&[("p", 2)])), &[a]));
+    // a sub-layout signed by A that delegates step `s` to A again
+    let self_similar = world::block_text(&world::sign_layout(world::layout(vec![world::step("s", 1, &[a])], vec![], &[a], world::far_future()), &[a]));
+    let fname = world::link_file("s", a);
+    let subname = format!("s.{}", a.prefix());
+    type Setup = Box<dyn Fn(&Path)>;
+    let w = |p: std::path::PathBuf, bytes: Vec<u8>| {
+        let _ = std::fs::write(p, bytes);
+    };
+    let mut setups: Vec<(String, Setup)> = vec![];
+    // (1) contents that are not UTF-8 text
+    for (n, bytes) in [
+        ("one 0xff byte", vec![0xffu8]),
+        ("valid link with a 0xff byte appended", [good.as_bytes(), &[0xff]].concat()),
+        ("valid link with a 0xff byte inside a string", good.replacen("\"s\"", "\"s\u{0}\"", 1).replace('\u{0}', "\u{fffd}").into_bytes().iter().map(|b| if *b == 0xef { 0xff } else { *b }).collect()),
+        ("UTF-8 BOM + valid link", [&[0xef, 0xbb, 0xbf][..], good.as_bytes()].concat()),
+        ("valid link + NUL", [good.as_bytes(), &[0]].concat()),
+        ("UTF-16 LE text", good.encode_utf16().flat_map(|u| u.to_le_bytes()).collect()),
+        ("lone surrogate escape in a string", good.replacen("\"s\"", "\"\\ud800\"", 1).into_bytes()),
+        ("1 MiB of '['", vec![b'['; 1 << 20]),
+        ("100 000 nested arrays", [vec![b'['; 100_000], vec![b']'; 100_000]].concat()),
+        ("1 MiB of zeros", vec![0u8; 1 << 20]),
+    ] {
+        let (f, b) = (fname.clone(), bytes.clone());
+        setups.push((format!("file content: {n}"), Box::new(move |d| w(d.join(&f), b.clone()))));
+    }
+    // (2) entries that are not regular files
+    {
+        let f = fname.clone();
+        setups.push(("a directory named like a link file".into(), Box::new(move |d| {
+            let _ = std::fs::create_dir_all(d.join(&f));
+        })));
+        let f = fname.clone();
+        setups.push(("a dangling symlink named like a link file".into(), Box::new(move |d| {
+            let _ = std::os::unix::fs::symlink("no-such-target", d.join(&f));
+        })));
+        let f = fname.clone();
+        setups.push(("a symlink to itself named like a link file".into(), Box::new(move |d| {
+            let _ = std::os::unix::fs::symlink(&f, d.join(&f));
+        })));
+        let f = fname.clone();
+        setups.push(("a symlink to the link directory named like a link file".into(), Box::new(move |d| {
+            let _ = std::os::unix::fs::symlink(".", d.join(&f));
+        })));
+        let (f, g) = (fname.clone(), good.clone());
+        setups.push(("a symlink to a valid link elsewhere".into(), Box::new(move |d| {
+            let _ = std::fs::write(d.join("elsewhere"), &g);
+            let _ = std::os::unix::fs::symlink("elsewhere", d.join(&f));
+        })));
+        let (f, g) = (fname.clone(), good.clone());
+        setups.push(("an unreadable (mode 000) link file".into(), Box::new(move |d| {
+            use std::os::unix::fs::PermissionsExt;
+            let _ = std::fs::write(d.join(&f), &g);
+            let _ = std::fs::set_permissions(d.join(&f), std::fs::Permissions::from_mode(0o000));
+        })));
+    }
+    // (3) delegation trees
+    {
+        let (f, s, sub) = (fname.clone(), self_similar.clone(), subname.clone());
+        setups.push(("self-similar sub-layout, sub-directory is a symlink to its parent".into(), Box::new(move |d| {
+            let _ = std::fs::write(d.join(&f), &s);
+            let _ = std::os::unix::fs::symlink(".", d.join(&sub));
+        })));
+        for depth in [8usize, 64, 300] {
+            let (f, s, sub, g) = (fname.clone(), self_similar.clone(), subname.clone(), good.clone());
+            setups.push((format!("self-similar sub-layout nested {depth} real directories deep, a plain link at the bottom"), Box::new(move |d| {
+                let mut cur = d.to_path_buf();
+                for _ in 0..depth {
+                    if std::fs::write(cur.join(&f), &s).is_err() {
+                        return;
+                    }
+                    cur = cur.join(&sub);
+                    if std::fs::create_dir_all(&cur).is_err() {
+                        return;
+                    }
+                }
+                let _ = std::fs::write(cur.join(&f), &g);
+            })));
+        }
+        // hostile content below the first level: every hostile link file inside the sub-directory
+        for (fdesc, content) in hostile_link_files().into_iter().step_by(3) {
+            let (f, s, sub) = (fname.clone(), self_similar.clone(), subname.clone());
+            setups.push((format!("hostile file inside the sub-layout's directory: {fdesc}"), Box::new(move |d| {
+                let _ = std::fs::write(d.join(&f), &s);
+                let _ = std::fs::create_dir_all(d.join(&sub));
+                let _ = std::fs::write(d.join(&sub).join(&f), &content);
+                let _ = std::fs::write(d.join(&sub).join("s.aaaaaaaa.link"), &content);
+            })));
+        }
+        let (f, s, sub) = (fname.clone(), self_similar.clone(), subname.clone());
+        setups.push(("the sub-layout's directory is a regular file".into(), Box::new(move |d| {
+            let _ = std::fs::write(d.join(&f), &s);
+            let _ = std::fs::write(d.join(&sub), "not a directory");
+        })));
+    }
+    for (desc, setup) in setups {
+        let (ld, bl, d2) = (linkdir.clone(), &outer, desc.clone());
+        cx.case_reporting(
+            "in_toto_verify(hostile directory entries)",
+            move || {
+                // mode-000 files and deep trees of the previous case
+                let _ = std::process::Command::new("chmod").args(["-R", "u+rwx"]).arg(&ld).output();
+                let _ = std::fs::remove_dir_all(&ld);
+                std::fs::create_dir_all(&ld).unwrap();
+                setup(&ld);
+                let mut panics = vec![];
+                if let world::Verdict::Panic(l, m) = world::verify(bl, world::owner_map(&[owner]), &ld) {
+                    panics.push((l, m));
+                }
+                panics
+            },
+            move || json!({"sweep": "adversarial-entries", "directory": d2}),
+        );
+    }
+    // (4) recording entry points on paths that do not name a readable regular file
+    for p in ["no-such-file", "", ".", "/", "/dev/null", "\u{0}", "a\u{0}b", "no/such/dir/file"] {
+        let pp = p.to_string();
+        cx.case(
+            "record_artifact / record_artifacts",
+            move || {
+                let _ = in_toto::runlib::record_artifact(&pp, &[in_toto::crypto::HashAlgorithm::Sha256], None);
+                let _ = in_toto::runlib::record_artifacts(&[&pp], None, None);
+            },
+            || json!({"sweep": "adversarial-entries", "path": p}),
+        );
+    }
+    let _ = std::env::set_current_dir("/");
+}
+
 // ---------------------------------------------------- shard entry (child)
 
 pub fn shard_main(args: &[String]) -> ! {
@@ -688,6 +840,7 @@ pub fn shard_main(args: &[String]) -> ! {
             "json-node-mutation" => sweep_json_node_mutation(&mut cx, thorough),
             "adversarial-rules" => sweep_adversarial_rules(&mut cx),
             "adversarial-verify" => sweep_adversarial_verify(&mut cx, &dir),
+            "adversarial-entries" => sweep_adversarial_entries(&mut cx, &dir),
             _ => {}
         }
         let total = cx.idx;
@@ -734,7 +887,7 @@ pub fn run(tier: Tier) -> i32 {
     let mut acc = Acc::new();
     let n_threads = util::n_threads() as u64;
     for sweep in SWEEPS {
-        let n = if sweep == "adversarial-verify" { n_threads.min(8) } else { n_threads };
+        let n = if sweep == "adversarial-verify" || sweep == "adversarial-entries" { n_threads.min(8) } else { n_threads };
         let mut shards: Vec<Shard> = (0..n)
             .map(|s| Shard { sweep, shard: s, start: 0, child: spawn(sweep, s, n, 0, &outdir, thorough), last_progress: String::new(), last_change: Instant::now(), deaths: 0 })
             .collect();
@@ -808,7 +961,7 @@ pub fn run(tier: Tier) -> i32 {
     acc.sample(|| json!({"sweep": "adversarial-verify", "layout": "step \"[\" threshold 4294967295", "link_file": "keyid with a multi-byte character across byte 8"}));
     c.acc = acc;
     c.rule = format!(
-        "sweeps: (1) every byte string of length <= {} over {{ }} [ ] \" : , 0 - a \\ 0xff into each of {} entry points; (2) every truncation and, at every {}offset, delete / 0x00 / 0x80 / 0xff / low-bit flip / insert 0x30 of {} fixtures into the matching entry points; (3) every node of every JSON fixture replaced by each of {} values, deleted, duplicated; (4) hostile artifact paths x hostile patterns x all rule kinds through the rule engine; (5) hostile layouts x hostile link files through in_toto_verify in a private cwd. Each case also exercises the follow-up calls (verify, prefix, to_bytes, sign). distinct_nontrivial = cases run (each is a distinct input)",
+        "sweeps: (1) every byte string of length <= {} over {{ }} [ ] \" : , 0 - a \\ 0xff into each of {} entry points; (2) every truncation and, at every {}offset, delete / 0x00 / 0x80 / 0xff / low-bit flip / insert 0x30 of {} fixtures into the matching entry points; (3) every node of every JSON fixture replaced by each of {} values, deleted, duplicated; (4) hostile artifact paths x hostile patterns x all rule kinds through the rule engine; (5) hostile layouts x hostile link files through in_toto_verify in a private cwd; (6) link-directory entries that are not regular UTF-8 files (0xff bytes, BOM, UTF-16, 1 MiB of brackets, a directory / dangling / self-referential symlink / unreadable file named like a link file), delegation trees that are self-similar (sub-directory symlinked to its parent; 8 / 64 / 300 real levels) or hostile below the first level, and record_artifact / record_artifacts on paths that name no readable file (the builder methods add_material / add_product take an operator-chosen path, return no Result and are outside this property). Each case also exercises the follow-up calls (verify, prefix, to_bytes, sign). distinct_nontrivial = cases run (each is a distinct input)",
         if thorough { 4 } else { 3 },
         decoders().len(),
         if thorough { "" } else { "(strided) " },
